@@ -6,7 +6,7 @@
        keys; NaN and the infinities are json's UnsupportedValueError, i.e. directiveJson's panic),
      - round(x, d) with d > 0 on floats where every step is exact in the dyadic domain.
    [walk_xj] / [render_xj] are the walker / Renderer.Execute with these entries.  Definitions only. *)
-From Soy Require Import Model.Bytes Model.Utf8 Model.Num Model.Values Model.Outcome Model.Ast
+From Soy Require Import Model.Bytes Model.Utf8 Model.Num Model.NumJson Model.Values Model.Outcome Model.Ast
   Model.Escape Model.Directives Model.JsEscape Model.Print Generated.Tables Model.Interp Model.InterpSafety.
 Open Scope N_scope.
 
@@ -16,13 +16,13 @@ Definition n_escapeJsString := Eval vm_compute in b "escapeJsString".
 
 (* ---- encoding/json on a data.Value ---- *)
 
-(* floatEncoder: NaN and +-Inf are an UnsupportedValueError; otherwise 'f' format with the shortest
-   digits when 1e-6 <= |x| < 1e21 -- on the printing domain of Model/Num.v (|x| < 1e6, at most nine
-   binary fraction digits) that is the text of String() *)
+(* floatEncoder: NaN and +-Inf are an UnsupportedValueError; otherwise Model/NumJson.v [fl_to_json]: the shortest
+   digits in 'f' layout when 1e-6 <= |x| < 1e21, else in 'e' layout with the exponent cleaned up (until wave 3 this
+   was the restricted printer [Num.fl_to_string_dom]: |x| < 1e6, at most nine binary fraction digits) *)
 Definition json_float (x : fl) : outcome bstr :=
   match x with
   | FNaN | FInf _ => Err e_json
-  | _ => match fl_to_string_dom x with Some s => Ok s | None => OutOfModel end
+  | _ => match fl_to_json x with Some s => Ok s | None => OutOfModel end
   end.
 
 Fixpoint json_items (rec : value -> outcome bstr) (l : list value) : outcome (list bstr) :=
